@@ -264,6 +264,9 @@ func modelStage(t *testing.T, prop, proto string) {
 		d := mgen.Example(seed*1000 + 700 + i)
 		env := wire.NewGenEnvFrom(proto, d.elems())
 		env.Missing = d.missing()
+		if proto == "nf9" {
+			env.Missing = append(env.Missing, 32768, 33000, 65535) // plain 16-bit field types of the upper half
+		}
 		cgen := rapid.Custom(func(t *rapid.T) modelCase {
 			c := modelCase{Proto: proto, Model: d}
 			if prop == "C09" {
